@@ -1,6 +1,7 @@
 package engine
 
 import (
+	"hash/fnv"
 	"fmt"
 	"go/ast"
 	"go/constant"
@@ -246,6 +247,10 @@ func (g *Gen) subRef(T types.Type, f string, r string) string {
 		g.S.declared["suballoc:"+t] = true
 		al := g.initSym(g.allocComp())
 		g.S.assert(eq(sel(al, t), sel(al, r)))
+		// derived references are injective and the ranges of different fields are disjoint
+		g.S.declareFun("sub.kind", []string{"Ref"}, "Int")
+		g.S.declareFun("sub.base", []string{"Ref"}, "Ref")
+		g.S.assert(and(eq(sx("sub.kind", t), fmt.Sprint(subKindID(fn))), eq(sx("sub.base", t), r)))
 	}
 	return t
 }
@@ -348,8 +353,12 @@ func (g *Gen) freshRef(h Heap, hint string) (string, Heap) {
 	}
 	h = h.clone()
 	h["ALLOC"] = store(al, r, "true")
-	// ghost maps keyed by ref start at their zero value for a fresh object
+	// ghost maps keyed by ref start at their zero value for a fresh object (not recorded as a write of the
+	// function: callers never knew anything about the entries of unallocated objects)
 	for _, gv := range g.sortedGhosts() {
+		if g.scan {
+			break
+		}
 		if strings.HasPrefix(gv.Type, "map:ref:") {
 			comp, _, vs := g.ghostComp(gv)
 			h[comp] = store(g.hget(h, comp), r, g.zeroOfSort(vs))
@@ -403,6 +412,24 @@ func (g *Gen) allocObject(h Heap, T types.Type, hint string) (string, Heap) {
 	r, h := g.freshRef(h, hint)
 	switch u := T.Underlying().(type) {
 	case *types.Struct:
+		// embedded sub-objects (struct-typed fields, addressed by derived references) are new as well:
+		// ghost maps keyed by their address start at the zero value
+		for i := 0; i < u.NumFields(); i++ {
+			f := u.Field(i)
+			if _, isStruct := f.Type().Underlying().(*types.Struct); !isStruct {
+				continue
+			}
+			sub := g.subRef(T, f.Name(), r)
+			for _, gv := range g.sortedGhosts() {
+				if g.scan {
+					break
+				}
+				if strings.HasPrefix(gv.Type, "map:ref:") {
+					comp, _, vs := g.ghostComp(gv)
+					h[comp] = store(g.hget(h, comp), sub, g.zeroOfSort(vs))
+				}
+			}
+		}
 		if _, flat := isFlatStruct(T); flat {
 			h = g.storeStruct(h, T, r, g.zero(T))
 			return r, h
@@ -685,4 +712,11 @@ func (g *Gen) safety(kind string, pos token.Pos, guard, goal string, anchorKinds
 		}
 	}
 	g.oblige(kind, g.anchorText(pos, anchorKinds...), "", guard, goal, pos)
+}
+
+// subKindID gives each derived-reference function a stable distinct number.
+func subKindID(name string) int {
+	h := fnv.New32a()
+	h.Write([]byte(name))
+	return int(h.Sum32()%1000000) + 1
 }
